@@ -20,6 +20,7 @@ import (
 	"github.com/streamingfast/bstream/stream"
 	"github.com/streamingfast/dstore"
 	"github.com/streamingfast/shutter"
+	"google.golang.org/protobuf/proto"
 )
 
 type c07Pause struct {
@@ -43,6 +44,7 @@ type c07Input struct {
 	Forked   bool       `json:"forked"`
 	Straddle bool       `json:"straddle"` // prefer a cursor whose LIB is below the hub window and whose block is inside
 	CurAhead int        `json:"cur_ahead,omitempty"` // the cursor may come from a server that had seen this many more arrivals than the hub
+	NonFinal bool       `json:"non_final,omitempty"` // W3: with the final-blocks-only filter, resume from a New/Undo cursor (must be refused)
 	Stop     uint64     `json:"stop"`
 	Filter   string     `json:"filter"` // default | final | custom
 	Custom   int        `json:"custom"`
@@ -63,6 +65,9 @@ type c07Obs struct {
 	Pushed    []int     `json:"pushed"` // arrival count known to the hub after each user event (len = len(Events))
 	Err       int       `json:"err"`    // 0 nil | 1 stop | 2 invalid argument | 3 other | 4 hang/panic
 	ErrText   string    `json:"err_text,omitempty"`
+	// W3: 1-based index of the first delivered event whose block is not proto.Equal to the block that was stored / fed
+	// under that id (payload, timestamp, ... included), 0 = every delivered block is the stored block
+	Altered int `json:"altered"`
 }
 
 // testHub wraps a real ForkableHub driven synchronously.
@@ -98,7 +103,8 @@ func newTestHub(kept int) (*testHub, error) {
 				bl = append(bl, b)
 			}
 		}
-		return &passSource{Shutter: shutter.New(), blocks: bl, h: h}
+		// W3: one-block passes carry the payload too (c06PB), so that every block the stream can deliver has one
+		return &passSource{Shutter: shutter.New(), blocks: bl, h: h, pb: c06PB}
 	})
 	th.fh = hub.NewForkableHub(lsf, obsf, kept)
 	go th.fh.Run()
@@ -266,7 +272,7 @@ func c07Run(in *c07Input) *c07Obs {
 			if g.arr >= in.A0+in.CurAhead {
 				break
 			}
-			if in.Filter == "final" {
+			if in.Filter == "final" && !in.NonFinal {
 				if g.ev.Step == 16 {
 					cand = append(cand, i)
 				}
@@ -285,7 +291,7 @@ func c07Run(in *c07Input) *c07Obs {
 				cand = u
 			}
 		}
-		if in.Filter != "final" {
+		if in.Filter != "final" || in.NonFinal {
 			if in.Undo {
 				pick(func(g gev) bool { return g.ev.Step == 2 })
 			}
@@ -325,7 +331,7 @@ func c07Run(in *c07Input) *c07Obs {
 	h := bstream.HandlerFunc(func(blk *pbbstream.Block, obj interface{}) error {
 		so := obj.(c07Stepable)
 		c := so.Cursor()
-		ev := fkEvent{Step: int(so.Step()), Blk: fkFromPB(blk), CBlk: fkRefOf(c.Block), Head: fkRefOf(c.HeadBlock), Lib: fkRefOf(c.LIB)}
+		ev := fkEvent{Step: int(so.Step()), Blk: fkFromPB(blk), CBlk: fkCursorBlk(c, so.Step()), Head: fkRefOf(c.HeadBlock), Lib: fkRefOf(c.LIB), CStep: int(c.Step)}
 		if j := so.ReorgJunctionBlock(); j != nil && so.Step() == bstream.StepUndo {
 			r := fkRefOf(j)
 			ev.Junc = &r
@@ -333,6 +339,11 @@ func c07Run(in *c07Input) *c07Obs {
 		mu.Lock()
 		obs.Events = append(obs.Events, ev)
 		n := len(obs.Events)
+		if obs.Altered == 0 {
+			if want, ok := byID[ev.Blk.ID]; !ok || !proto.Equal(blk, c06PB(want)) {
+				obs.Altered = n
+			}
+		}
 		for nextPause < len(pauses) && pauses[nextPause].After <= n {
 			pushMore(pauses[nextPause].Push)
 			nextPause++
@@ -521,7 +532,7 @@ func c07Gen(prop string) func(r *Rng, i int, tier string) any {
 		in := &c07Input{Prop: prop}
 		in.First = uint64([]int{0, 0, 1}[r.Intn(3)])
 		c07GenScenario(r, in)
-		if r.Chance(15) {
+		if r.Chance(25) { // W3: 15 -> 25, starts below the first streamable block were met by ~2 cases in 96
 			in.First = in.Root.Num // the chain starts at the first streamable block
 		}
 		na := len(in.Arrival)
@@ -659,6 +670,12 @@ func c07Gen(prop string) func(r *Rng, i int, tier string) any {
 			in.CurAhead = 1 + r.Intn(6)
 			in.Shape += "/cursor-ahead"
 		}
+		if in.Filter == "final" && in.Mode != "num" && r.Chance(25) {
+			// W3: final-blocks-only must REFUSE a cursor that is not on a final block; the generator only ever drew final
+			// cursors for this filter, so the refusal clause of c13_prop was never evaluated under its guard
+			in.NonFinal = true
+			in.Shape += "/non-final-cursor"
+		}
 		return in
 	}
 }
@@ -690,10 +707,10 @@ func c07Exec(raw json.RawMessage) (*Case, error) {
 	for i, p := range ps {
 		pauses[i] = fmt.Sprintf("(%d, %d)", p.After, p.Push)
 	}
-	cs.Coq = fmt.Sprintf("mkC07 %d %d %d %s %s %d %d %d %d %s %s %s %d %d %d %s %s %s %s %s %d",
+	cs.Coq = fmt.Sprintf("mkC07 %d %d %d %s %s %d %d %d %d %s %s %s %d %d %d %s %s %s %s %s %d %d",
 		in.First, in.Kept, in.Bundle, coqFkBlock(in.Root), coqBlocks(in.Arrival), in.A0, in.HubStart, in.Merged,
 		map[string]int{"num": 0, "cursor": 1, "target": 2}[in.Mode], coqZ(in.Start), cur, coqEvents(obs.Live),
-		in.Stop, filt, in.Custom, coqList(pauses), coqBlocks(obs.Canon), coqBlocks(obs.Forked), coqEvents(obs.Events), coqNList(pushed), obs.Err)
+		in.Stop, filt, in.Custom, coqList(pauses), coqBlocks(obs.Canon), coqBlocks(obs.Forked), coqEvents(obs.Events), coqNList(pushed), obs.Err, obs.Altered)
 	joinInfo := "live-only"
 	if len(obs.Events) > 0 {
 		first := obs.Events[0]
@@ -772,19 +789,55 @@ func c07Corpus(prop string) func() []any {
 		// 6..14 and the fork 13 <- 114 <- 115 (head 115, LIB 13, lowest 8); the files hold 2..9; target cursor {New 14}
 		// (ksel 11) resp. {Undo 14} (ksel 12); the join at 8 brings 8..14, Undo 14, New 114, New 115 (resp. 8..13, New 114,
 		// New 115); after 12 events the canonical 15..24 arrive and the hub reorganises back
-		var arr4 []fkBlock
+		var arr5 []fkBlock
 		for n := uint64(3); n <= 14; n++ {
-			arr4 = append(arr4, b(n))
+			arr5 = append(arr5, b(n))
 		}
-		arr4 = append(arr4, fkBlock{ID: 114, Num: 14, Parent: 13, Lib: 12}, fkBlock{ID: 115, Num: 15, Parent: 114, Lib: 13})
+		arr5 = append(arr5, fkBlock{ID: 114, Num: 14, Parent: 13, Lib: 12}, fkBlock{ID: 115, Num: 15, Parent: 114, Lib: 13})
 		for n := uint64(15); n <= 24; n++ {
-			arr4 = append(arr4, b(n))
+			arr5 = append(arr5, b(n))
 		}
-		targetOffChainNew := &c07Input{Prop: prop, First: 2, Kept: 5, Bundle: 10, Root: b(2), Arrival: arr4, A0: 14, HubStart: 6, Merged: 10,
+		targetOffChainNew := &c07Input{Prop: prop, First: 2, Kept: 5, Bundle: 10, Root: b(2), Arrival: arr5, A0: 14, HubStart: 6, Merged: 10,
 			Mode: "target", Start: 5, KSel: 11, Filter: "default", Pauses: []c07Pause{{After: 12, Push: 10}}, Shape: "corpus/target-cursor-off-chain"}
-		targetOffChainUndo := &c07Input{Prop: prop, First: 2, Kept: 5, Bundle: 10, Root: b(2), Arrival: arr4, A0: 14, HubStart: 6, Merged: 10,
+		targetOffChainUndo := &c07Input{Prop: prop, First: 2, Kept: 5, Bundle: 10, Root: b(2), Arrival: arr5, A0: 14, HubStart: 6, Merged: 10,
 			Mode: "target", Start: 5, KSel: 12, Filter: "default", Pauses: []c07Pause{{After: 12, Push: 10}}, Shape: "corpus/target-cursor-off-chain"}
-		return []any{joinOnFork, finalAboveLib, finalCursorAhead, finalTarget, targetJoinOnFork8, targetJoinOnFork13, targetOffChainNew, targetOffChainUndo}
+		// ---- W3 (conclusion audit): bounds of C13 that generated cases met rarely or never
+		// a start below the first streamable block (positive, and negative beyond the head) resolves to the first streamable block
+		// (chain 8..20, first streamable block 8, bundles of 4: the bundle of block 0 does not exist, so an unclamped start would
+		// make the file source wait for a file that never comes)
+		var arr4 []fkBlock
+		for n := uint64(9); n <= 20; n++ {
+			arr4 = append(arr4, lag(n))
+		}
+		belowFirst := &c07Input{Prop: prop, First: 8, Kept: 5, Bundle: 4, Root: lag(8), Arrival: arr4, A0: 12, HubStart: 12, Merged: 16,
+			Mode: "num", Start: 0, Filter: "default", Shape: "corpus/start-below-first-streamable"}
+		negBeyondHead := &c07Input{Prop: prop, First: 8, Kept: 5, Bundle: 4, Root: lag(8), Arrival: arr4, A0: 12, HubStart: 12, Merged: 16,
+			Mode: "num", Start: -1000, Filter: "default", Shape: "corpus/negative-start-beyond-head"}
+		// a negative start resolves to head minus the distance: head 14, start -3 = 11 (inside the hub window), -9 = 5 (in the files)
+		negLive := &c07Input{Prop: prop, First: 2, Kept: 5, Bundle: 4, Root: lag(2), Arrival: arr2, A0: 12, HubStart: 6, Merged: 8,
+			Mode: "num", Start: -3, Filter: "default", Shape: "corpus/negative-start-live"}
+		negFiles := &c07Input{Prop: prop, First: 2, Kept: 5, Bundle: 4, Root: lag(2), Arrival: arr2, A0: 12, HubStart: 10, Merged: 12,
+			Mode: "num", Start: -9, Filter: "final", Shape: "corpus/negative-start-files-final"}
+		// final blocks only from a New cursor: refused as an invalid argument
+		finalNonFinalCursor := &c07Input{Prop: prop, First: 2, Kept: 5, Bundle: 4, Root: lag(2), Arrival: arr2, A0: 12, HubStart: 6, Merged: 8,
+			Mode: "cursor", Start: 2, Filter: "final", NonFinal: true, KSel: 5, Shape: "corpus/final-only-non-final-cursor"}
+		// the stop block is reached in the FILES while the step filter removes every event (Undo only): the stop-block handler never
+		// sees block 6; the file source's own stop marker must surface as stop-block-reached
+		stopInFilesFiltered := &c07Input{Prop: prop, First: 2, Kept: 5, Bundle: 4, Root: lag(2), Arrival: arr3, A0: 18, HubStart: 14, Merged: 12,
+			Mode: "num", Start: 3, Stop: 6, Filter: "custom", Custom: 2, Shape: "corpus/stop-in-files-all-filtered"}
+		// start after stop: invalid argument, also when the start is only after the stop once clamped at the first streamable block
+		startAfterStop := &c07Input{Prop: prop, First: 2, Kept: 5, Bundle: 4, Root: lag(2), Arrival: arr2, A0: 12, HubStart: 6, Merged: 8,
+			Mode: "num", Start: 9, Stop: 8, Filter: "default", Shape: "corpus/start-after-stop"}
+		// known finding C13-target-cursor-beyond-stop: start 5, stop 7, target cursor {new 10, LIB 5}; the hub is not ready: the
+		// stream is served from the files (2..11), which hold back 6.. until the cursor block 10 and are read only up to the bundle of 7
+		var arr6 []fkBlock
+		for n := uint64(3); n <= 20; n++ {
+			arr6 = append(arr6, lag(n))
+		}
+		targetBeyondStop := &c07Input{Prop: prop, First: 2, Kept: 5, Bundle: 4, Root: lag(2), Arrival: arr6, A0: 12, HubStart: 12, Merged: 12,
+			Mode: "target", Start: 5, Stop: 7, KSel: 7, Filter: "default", Shape: "corpus/target-cursor-beyond-stop"}
+		return []any{joinOnFork, finalAboveLib, finalCursorAhead, finalTarget, targetJoinOnFork8, targetJoinOnFork13, targetOffChainNew, targetOffChainUndo,
+			belowFirst, negBeyondHead, negLive, negFiles, finalNonFinalCursor, stopInFilesFiltered, startAfterStop, targetBeyondStop}
 	}
 }
 
